@@ -23,6 +23,22 @@ Run-time frame contracts on the REAL bionumpy functions over an enumerated small
                     "rawbuf:file:<ending>:written-bytes-changed-by-field-access:<column kind>",
                     "chunk:<format>:no-final-newline:...").
 
+  functions called DIRECTLY on a lazily read chunk ("lazyiv"):
+                    interval arithmetic and genomic-data functions (merge_intervals at distances 0..2, sort_intervals, pileups,
+                    masks, clip, intersect / unique_intersect / count_overlap with the chunk as first or second argument or both
+                    arguments lazily read, Genome.get_intervals(chunk).merged() / get_pileup() / sorted() ...) take the chunk
+                    itself: for every table of 1..3 intervals sorted on start (disjoint, touching, overlapping, nested, equal,
+                    single) written as plain bed3, bed4 / bed6 lines read with the 3-column bed buffer, Bed6Buffer, numbers
+                    with '+' signs and leading zeros, CRLF, no final newline, bedGraph, narrowPeak: afterwards the chunk writes
+                    the bytes a fresh chunk writes, holds the same bytes/offsets and field values, and the second call / the
+                    call on a fresh chunk give the same result
+                    ("lazyiv:<fn>:chunk-written-bytes-changed" / "-buffer-changed" / "-field-changed" / ":second-call-differs").
+  assignment on an indexed copy:
+                    table[index].column = ... / chunk[index].column = ... for every boolean mask, and the index lists, index
+                    arrays and slices that keep EVERY row, leaves the table / chunk (fields, written bytes) alone
+                    ("table:getitem+setattr:input-modified", "chunk:any-format:field-changed-by-assignment-to-an-indexed-copy" /
+                    "chunk:any-format:written-bytes-changed-by-assignment-to-an-indexed-copy").
+
 The oracle is the statement itself: equality of snapshots (taken with copy.deepcopy, so that taking the snapshot
 does not change the aliasing state of lazily sliced ragged arrays) - results are never compared with an expected
 value, so defects of other properties (wrong parse results etc.) do not raise alarms here.
@@ -1213,8 +1229,10 @@ def _eval_chunk(col, env, scenario, case, sig):
             got = read_snap(B, p)
             col.check(got == env.V0[p], sig("field-changed-by-" + what), case, "field %s: %s" % (p, first_diff(env.V0[p], got)))
     elif kind == "setattr-index":
-        # explicit assignment on chunk[index] - ANOTHER object than the chunk, also when the index keeps every row
+        # explicit assignment on chunk[index] - ANOTHER object than the chunk, also when the index keeps every row.
+        # (indexing a lazily read table does not depend on the format: one signature for all formats)
         k, ik = scenario[1], scenario[2]
+        sig_i = lambda what: "chunk:any-format:" + what
         R = B[_keep_index(ik, env.n_entries)]
         if len(R) == 0:
             return
@@ -1224,14 +1242,14 @@ def _eval_chunk(col, env, scenario, case, sig):
         setattr(R, k, new)
         what = "assignment-to-an-indexed-copy"
         got = read_snap(B, k)
-        col.check(got == env.V0[k], sig("field-changed-by-" + what), case,
+        col.check(got == env.V0[k], sig_i("field-changed-by-" + what), case,
                   "field %s of the original chunk after chunk[%s].%s = ...: %s" % (k, ik, k, first_diff(env.V0[k], got)))
-        _check_unchanged(col, env, B, p0, case, sig, what)
+        _check_unchanged(col, env, B, p0, case, sig_i, what)
         _use(env, R)
-        _check_unchanged(col, env, B, p0, case, sig, what)
+        _check_unchanged(col, env, B, p0, case, sig_i, what)
         for p in env.paths:
             got = read_snap(B, p)
-            col.check(got == env.V0[p], sig("field-changed-by-" + what), case, "field %s: %s" % (p, first_diff(env.V0[p], got)))
+            col.check(got == env.V0[p], sig_i("field-changed-by-" + what), case, "field %s: %s" % (p, first_diff(env.V0[p], got)))
     elif kind == "value-fn":
         p, fname = scenario[1], scenario[2]
         v = read_field(B, p)
@@ -1716,8 +1734,8 @@ def chunk_scenarios(env, tier, full_file):
                 yield ["setattr-slice", k]
         # assignment on chunk[index] for indices that keep every row (boolean mask, index list, index array, slice)
         S = _settable(env)
-        for k in S[:(len(S), 2, 1)[2 - level]]:
-            for ik in KEEP_INDEX_KINDS[:(len(KEEP_INDEX_KINDS), 3, 1)[2 - level]]:
+        for i, k in enumerate(S[:(len(S), 2, 1)[2 - level]]):
+            for ik in KEEP_INDEX_KINDS[:(len(KEEP_INDEX_KINDS), 3 if (i == 0 or tier != "quick") else 1, 1)[2 - level]]:
                 yield ["setattr-index", k, ik]
     if level >= 1:
         c = env.fresh()
@@ -2213,11 +2231,293 @@ def run_writable_chunks(col, tier, tmp, allowed_s):
 
 
 # ----------------------------------------------------------------------------------------------------------------
+# section "lazyiv": interval arithmetic / genomic-data functions called DIRECTLY on a lazily read chunk of interval files
+#
+#   tables of 1..3 intervals sorted on start over positions 0..P (every combination: disjoint, touching, overlapping,
+#   nested, equal, a single interval) on one chromosome - for the genomic functions also spread over two chromosomes -
+#   x the way the table is written to a file and read back ("dress": plain bed3; bed4 / bed6 lines read with the default
+#   3-column bed buffer, so that the chunk holds more columns than its table knows; Bed6Buffer; numbers with '+' signs and
+#   leading zeros; CRLF line ends; no final newline; bedGraph; narrowPeak) x read_chunk() / read()
+#   x registry of functions that take the chunk itself as (first or second) argument.
+#   Contracts (before/after comparisons only, no expected values):
+#     - the chunk writes the bytes a fresh chunk of the same file writes, holds the same bytes/offsets, and its fields have
+#       the values they have in a fresh chunk            ("lazyiv:<fn>:chunk-written-bytes-changed" / "-buffer-changed" / "-field-changed")
+#     - the second call, and the call on a fresh chunk, give the result of the first call      ("lazyiv:<fn>:second-call-differs")
+# ----------------------------------------------------------------------------------------------------------------
+
+# dress: (file extension, buffer type, columns written, number style, line end, final newline)
+LAZYIV_DRESSES = {
+    "bed3": (".bed", None, 3, "plain", "\n", True),
+    "bed6-read-as-bed3": (".bed", None, 6, "plain", "\n", True),
+    "bed3:signs-and-leading-zeros": (".bed", None, 3, "signs-zeros", "\n", True),
+    "bed6": (".bed", "bionumpy.io.delimited_buffers:Bed6Buffer", 6, "plain", "\n", True),
+    "bed4-read-as-bed3:no-final-newline": (".bed", None, 4, "plain", "\n", False),
+    "bed3:crlf": (".bed", None, 3, "plain", "\r\n", True),
+    "bdg": (".bdg", None, "bdg", "plain", "\n", True),
+    "narrowPeak": (".narrowPeak", None, "narrowPeak", "plain", "\n", True),
+    "bed6:signs-and-leading-zeros": (".bed", "bionumpy.io.delimited_buffers:Bed6Buffer", 6, "signs-zeros", "\n", True),
+}
+LAZYIV_QUICK_DRESSES = ("bed3", "bed6-read-as-bed3", "bed3:signs-and-leading-zeros", "bed6", "bed4-read-as-bed3:no-final-newline", "bed3:crlf", "bdg")
+LAZYIV_GENOME = {"chr1": 12, "chr2": 9}
+
+
+def _lazyiv_text(dress, entries):
+    ext, _, cols, style, eol, final = LAZYIV_DRESSES[dress]
+    lines = []
+    for i, (c, a, b) in enumerate(entries):
+        sa, sb = str(a), str(b)
+        if style == "signs-zeros":
+            sa, sb = (("+" + sa, "0" + sb), ("00" + sa, sb), (sa, "+" + sb))[i % 3]
+        cells = [c, sa, sb]
+        extra = ["n%d" % i, str((7 * i + 3) % 10), "+-"[(i + a) % 2]]
+        if cols == "bdg":
+            cells.append(["1.5", "-2e1", "0.25"][i % 3])
+        elif cols == "narrowPeak":
+            cells += extra + [["1.5", "3", "1e-2"][i % 3], ["-1", "4.25", "-1.5e0"][i % 3], ["2.5e1", "-1", "0.5"][i % 3], str(a)]
+        else:
+            cells += extra[:cols - 3]
+        lines.append("\t".join(cells))
+    text = "".join(l + eol for l in lines)
+    return text if final else text[:-len(eol)]
+
+
+def _lazyiv_functions(_cache={}):
+    """name -> (kind, f).  kind 'one': f(chunk, size) on the intervals of ONE chromosome; 'one-s': needs a strand column;
+    'two': f(chunk, other, size), other = an (eager) Interval table; 'two-lazy': other = a second lazily read chunk of a file
+    in the same dress; 'genomic' / 'genomic-s': f(chunk, genome) on intervals of several chromosomes"""
+    if _cache:
+        return _cache
+    from bionumpy import arithmetics as A
+    from bionumpy.arithmetics import intervals as I
+    _cache.update({
+        "merge_intervals/d0": ("one", lambda c, S: A.merge_intervals(c)),
+        "merge_intervals/d1": ("one", lambda c, S: A.merge_intervals(c, distance=1)),
+        "merge_intervals/d2": ("one", lambda c, S: A.merge_intervals(c, distance=2)),
+        "sort_intervals": ("one", lambda c, S: A.sort_intervals(c)),
+        "sort_intervals/reversed": ("one", lambda c, S: A.sort_intervals(c[::-1])),
+        "get_pileup": ("one", lambda c, S: A.get_pileup(c, S)),
+        "get_boolean_mask": ("one", lambda c, S: A.get_boolean_mask(c, S)),
+        "clip": ("one", lambda c, S: I.clip(c, S - 2)),
+        "clip/clipping": ("one", lambda c, S: I.clip(c, 3)),
+        "pileup": ("one", lambda c, S: I.pileup(c)),
+        "extend_to_size": ("one-s", lambda c, S: I.extend_to_size(c, 3, S)),
+        "unique_intersect/chunk-first": ("two", lambda c, o, S: A.unique_intersect(c, o, S)),
+        "unique_intersect/chunk-second": ("two", lambda c, o, S: A.unique_intersect(o, c, S)),
+        "count_overlap/chunk-first": ("two", lambda c, o, S: A.count_overlap(c, o)),
+        "count_overlap/chunk-second": ("two", lambda c, o, S: A.count_overlap(o, c)),
+        "intersect/two-chunks": ("two-lazy", lambda c, o, S: A.intersect(c, o)),
+        "unique_intersect/two-chunks": ("two-lazy", lambda c, o, S: A.unique_intersect(c, o, S)),
+        "count_overlap/two-chunks": ("two-lazy", lambda c, o, S: A.count_overlap(c, o)),
+        "Genome.get_intervals": ("genomic", lambda c, G: G.get_intervals(c)),
+        "GenomicIntervals.merged": ("genomic", lambda c, G: G.get_intervals(c).merged()),
+        "GenomicIntervals.merged/d1": ("genomic", lambda c, G: G.get_intervals(c).merged(distance=1)),
+        "GenomicIntervals.get_pileup": ("genomic", lambda c, G: G.get_intervals(c).get_pileup()),
+        "GenomicIntervals.get_mask": ("genomic", lambda c, G: G.get_intervals(c).get_mask()),
+        "GenomicIntervals.sorted": ("genomic", lambda c, G: G.get_intervals(c).sorted()),
+        "GenomicIntervals.clip": ("genomic", lambda c, G: G.get_intervals(c).clip()),
+        "GenomicIntervals.extended_to_size": ("genomic-s", lambda c, G: G.get_intervals(c, stranded=True).extended_to_size(3)),
+        "GenomicIntervals.get_location": ("genomic-s", lambda c, G: G.get_intervals(c, stranded=True).get_location("start")),
+    })
+    return _cache
+
+
+class LazyIvEnv:
+    """one enumerated interval file; baselines from FRESH chunks"""
+
+    def __init__(self, tmp, dress, entries, how, name="in"):
+        self.tmp, self.dress, self.entries, self.how = tmp, dress, entries, how
+        self.ext, spec = LAZYIV_DRESSES[dress][0], LAZYIV_DRESSES[dress][1]
+        self.bt = None
+        if spec is not None:
+            import importlib
+            mod, attr = spec.split(":")
+            self.bt = getattr(importlib.import_module(mod), attr)
+        self.path = os.path.join(tmp, "lazyiv_" + name + self.ext)
+        with open(self.path, "wb") as f:
+            f.write(_lazyiv_text(dress, entries).encode())
+        self._n = 0
+        c = self.fresh()
+        self.fields = [f.name for f in dataclasses.fields(c)]
+        self.W0 = self.write(c)            # (nothing was read from c)
+        c = self.fresh()
+        self.V0 = {name: read_snap(c, name) for name in self.fields}
+        self.others = {}
+
+    def fresh(self):
+        import bionumpy as bnp
+        with bnp.open(self.path, buffer_type=self.bt) as f:
+            return f.read_chunk() if self.how == "read_chunk" else f.read()
+
+    def write(self, chunk):
+        import bionumpy as bnp
+        self._n += 1
+        out = os.path.join(self.tmp, "lazyiv_out%d%s" % (self._n % 2, self.ext))
+        with bnp.open(out, "w", buffer_type=self.bt) as o:
+            o.write(chunk)
+        with open(out, "rb") as f:
+            return f.read()
+
+    def other(self, ivs):
+        key = json_key(ivs)
+        if key not in self.others:
+            self.others.clear()
+            self.others[key] = LazyIvEnv(self.tmp, self.dress, [["chr1", a, b] for a, b in ivs], self.how, name="other")
+        return self.others[key]
+
+
+def eval_lazyiv(col, case, _envs={}):
+    """exceptions of the function are tolerated (whether it applies to a lazily read chunk is not part of this property; the
+    case is then counted as trivial) - the chunk must be unchanged all the same"""
+    import bionumpy as bnp
+    fn_name, dress, entries, how = case["fn"], case["dress"], case["entries"], case["how"]
+    base = "lazyiv:" + fn_name.split("/")[0]
+    nontrivial = True
+    try:
+        tmp = case_tmp()
+        key = (tmp, json_key([dress, entries, how]))
+        if key not in _envs:
+            _envs.clear()                  # the input file path is shared: one live environment at a time
+            _envs[key] = LazyIvEnv(tmp, dress, entries, how)
+        env = _envs[key]
+        kind, f = _lazyiv_functions()[fn_name]
+        env2 = None
+        if kind.startswith("genomic"):
+            extra = lambda: (bnp.Genome.from_dict(dict(LAZYIV_GENOME)),)
+            watched = []
+        elif kind == "two":
+            other = _interval_table(case["other"], "Interval")
+            extra = lambda: (other, LAZYIV_GENOME["chr1"])
+            watched = [other]
+        elif kind == "two-lazy":
+            env2 = env.other(case["other"])
+            other = env2.fresh()
+            p2 = chunk_private_state(other)
+            extra = lambda: (other, LAZYIV_GENOME["chr1"])
+            watched = []
+        else:
+            extra = lambda: (LAZYIV_GENOME["chr1"],)
+            watched = []
+        B = env.fresh()
+        p0 = chunk_private_state(B)
+        s0 = snap(watched)
+        results = []
+        for who in (B, B, env.fresh()):    # first call, second call on the same chunk, call on a fresh chunk
+            try:
+                results.append(["value", snap(f(who, *extra()))])
+            except Exception as e:
+                results.append(["raises", type(e).__name__])
+                nontrivial = False
+                break
+        if len(results) == 3:
+            col.check(results[0] == results[1], base + ":second-call-differs", case,
+                      "f(chunk) != f(chunk) on the same chunk: " + first_diff(results[0], results[1]))
+            col.check(results[0] == results[2], base + ":second-call-differs", case,
+                      "f(chunk) != f(fresh chunk of the same file): " + first_diff(results[0], results[2]))
+        _lazyiv_unchanged(col, env, B, p0, case, base, "chunk")
+        if env2 is not None:
+            _lazyiv_unchanged(col, env2, other, p2, case, base, "other-chunk")
+        s1 = snap(watched)
+        col.check(s1 == s0, base + ":input-modified", case, "the other table changed: " + first_diff(s0, s1))
+    except Exception as e:
+        nontrivial = False
+        col.fail(base + ":harness-exception:" + type(e).__name__, case, traceback.format_exc()[-600:])
+    col.case(case, nontrivial=nontrivial, contract="lazyiv")
+
+
+def _lazyiv_unchanged(col, env, B, p0, case, base, which):
+    W1 = env.write(B)
+    col.check(W1 == env.W0, "%s:%s-written-bytes-changed" % (base, which), case,
+              "after the call(s) the chunk writes %r, a fresh chunk of the same file writes %r" % (W1[-200:], env.W0[-200:]))
+    if p0 is not None:
+        p1 = chunk_private_state(B)
+        col.check(p1 == p0, "%s:%s-buffer-changed" % (base, which), case,
+                  "bytes/offsets held by the chunk changed: " + first_diff(p0, p1))
+    for name in env.fields:
+        got = read_snap(B, name)
+        if not col.check(got == env.V0[name], "%s:%s-field-changed" % (base, which), case,
+                         "field %s after the call(s): %s" % (name, first_diff(env.V0[name], got))):
+            break
+
+
+def _lazyiv_tables(P, n_triples, rng):
+    pool = [[a, b] for a in range(P) for b in range(a + 1, P + 1)]
+    lists = [list(c) for n in (1, 2) for c in itertools.combinations_with_replacement(pool, n)]      # sorted on start
+    triples = [list(c) for c in itertools.combinations_with_replacement(pool, 3)]
+    return lists + (triples if n_triples is None or n_triples >= len(triples) else
+                    [triples[i] for i in sorted(rng.sample(range(len(triples)), n_triples))])
+
+
+LAZYIV_STRANDED = ("bed6", "bed6:signs-and-leading-zeros", "narrowPeak")      # dresses whose table has a strand column
+
+
+def cases_lazyiv(tier, rng):
+    """merge_intervals (the function that assigns to the table it got by indexing): every table x every dress (distance 0;
+    distances 1, 2 on two dresses per table, rotating; every 6th file also read with read()); every other function: every
+    table x one dress (rotating), the genomic ones on every other table.  Quick: every other dress per table for
+    merge_intervals, every third function of the registry per table for the others (all alternating over the tables)."""
+    full = tier != "quick"
+    F = _lazyiv_functions()
+    dresses = list(LAZYIV_DRESSES) if full else list(LAZYIV_QUICK_DRESSES)
+    tables = _lazyiv_tables(5 if full else 4, 30 if full else 8, rng)
+    nd = len(dresses)
+    rest_one = [n for n, (k, _) in F.items() if not n.startswith("merge_intervals") and not k.startswith("genomic")]
+    rest_genomic = [n for n, (k, _) in F.items() if k.startswith("genomic")]
+
+    def case(fn, dress, entries, how, other=None):
+        d = {"section": "lazyiv", "fn": fn, "dress": dress, "entries": entries, "how": how}
+        if other is not None:
+            d["other"] = other
+        return d
+
+    for t, ivs in enumerate(tables):
+        one = [["chr1", a, b] for a, b in ivs]
+        # the same intervals spread over two chromosomes (every split point, rotating over the tables)
+        k = t % (len(ivs) + 1)
+        multi = [["chr1" if i < k else "chr2", a, b] for i, (a, b) in enumerate(ivs)]
+        for j, dress in enumerate(dresses):
+            stranded = dress in LAZYIV_STRANDED
+            hows = ("read_chunk", "read") if (full and (t + j) % 6 == 0) else ("read_chunk",)
+            for how in hows:               # (grouped per file: the environment - file, baselines - is made once)
+                if full or (j + t) % 2 == 0 or (j - 2 * t) % nd == 0:
+                    yield case("merge_intervals/d0", dress, one, how)
+                if (j - t) % nd in (0, 1) if full else ((j + t) % 2 == 0 and (j - t) % nd in (0, 1)):
+                    yield case("merge_intervals/d1", dress, one, how)
+                    yield case("merge_intervals/d2", dress, one, how)
+                if how == "read_chunk" and (j - 2 * t) % nd == 0:
+                    for i, fn in enumerate(rest_one):
+                        kind = F[fn][0]
+                        if (kind.endswith("-s") and not stranded) or (not full and (i + t) % 3):
+                            continue
+                        if kind.startswith("two"):
+                            yield case(fn, dress, one, how, INTERVAL_OTHERS[(t + i) % len(INTERVAL_OTHERS)])
+                        else:
+                            yield case(fn, dress, one, how)
+            if (j - 2 * t) % nd == 1:
+                for i, fn in enumerate(rest_genomic):
+                    if (F[fn][0].endswith("-s") and not stranded) or (i + t) % (2 if full else 3):
+                        continue
+                    yield case(fn, dress, multi, "read_chunk")
+
+
+def run_lazyiv(col, tier, tmp, allowed_s):
+    import time
+    _CASE_TMP[0] = tmp
+    t0 = time.time()
+    import random
+    for case in cases_lazyiv(tier, random.Random("lazyiv-%d" % col.seed)):      # own generator: the sample does not depend on the other sections
+        eval_lazyiv(col, case)
+        if time.time() - t0 > allowed_s:
+            col.exhaustive = False
+            break
+
+
+# ----------------------------------------------------------------------------------------------------------------
 # run / replay
 # ----------------------------------------------------------------------------------------------------------------
 
 SECTION_ORDER = ("text", "seq", "interval", "genomic", "table")
 NEW_ALLOWANCE = ((6.5, 3.5), (40, 19))       # seconds for (rawbuf, writable chunks of every format): quick, thorough
+LAZYIV_ALLOWANCE = (9, 55)                   # seconds for the functions called directly on lazily read interval chunks: quick, thorough
 # share of the wall budget after which a section is cut short (the chunk section gets what is left)
 QUICK_DEADLINES = {"text": 10, "seq": 20, "interval": 30, "genomic": 36, "table": 42}
 THOROUGH_DEADLINES = {"text": 90, "seq": 150, "interval": 230, "genomic": 260, "table": 290}
@@ -2237,7 +2537,12 @@ def run(tier="quick", seed=0):
                          "first step; delimited buffers over user-owned / writable bytes: column kind x position of the column "
                          "(only column, last, first, middle, twice) x 1..4 rows x (from_raw_buffer on a writable / read-only / "
                          "partly incomplete / sliced / CRLF user array; files with and without final newline read at once or in "
-                         "small chunks) x short histories of field parses, and every file format without final newline. "
+                         "small chunks) x short histories of field parses, and every file format without final newline; "
+                         "interval / genomic functions called directly on lazily read interval chunks: every table of 1..3 sorted "
+                         "intervals over a small position range (disjoint, touching, overlapping, nested, single) x file dress "
+                         "(bed3, more columns than the buffer's table, Bed6Buffer, signed / zero-padded numbers, CRLF, no final "
+                         "newline, bedGraph, narrowPeak) x function registry; assignment on table[index] / chunk[index] for every "
+                         "mask and every index that keeps all rows. "
                          "distinct = distinct (function, argument) "
                          "or (file, scenario); every case is non-trivial (it evaluates a frame / repeatability contract). "
                          "Sampling (seeded) only for tuples of length 3 in the quick tier and float triples.",
@@ -2258,7 +2563,16 @@ def run(tier="quick", seed=0):
                                 "single fields, get_data twice, field then get_data, other field then field",
                    "every format without final newline": "fields in file order and reversed, functions on field values; thorough: "
                                                          "single fields, write twice, slices, whole pool and first line"},
-        "chunk": {"formats": list(FORMATS), "lines per file": "every non-empty sub-selection of the pool (quick: whole pool and first line)",
+        "lazyiv": {"positions": "0..%d" % (4 if tier == "quick" else 5),
+                   "intervals per table": "1..2 sorted on start, all combinations + %d sampled triples" % (8 if tier == "quick" else 30),
+                   "chromosomes": "one (interval arithmetic); every split of the table over two (genomic functions)",
+                   "dresses": list(LAZYIV_QUICK_DRESSES) if tier == "quick" else list(LAZYIV_DRESSES),
+                   "ways of reading": ["read_chunk"] + ([] if tier == "quick" else ["read (every 6th file)"]),
+                   "functions": sorted(_lazyiv_functions()),
+                   "merge_intervals": "distance 0 on every dress (quick: every other dress), distances 1, 2 on two dresses per table",
+                   "other functions": "one dress per table, rotating (quick: every third function per table; genomic ones: thorough every other)"},
+        "chunk": {"indexed copies": list(KEEP_INDEX_KINDS),
+                  "formats": list(FORMATS), "lines per file": "every non-empty sub-selection of the pool (quick: whole pool and first line)",
                   "pool sizes": {k: len(v[3]) for k, v in FORMATS.items()},
                   "histories": {"first step": list(HISTORY_MODES) + ["(variants) all fields read before", "chunk observed before the second operation"],
                                 "second operation with a field": list(HISTORY_FIELD_OPS),
@@ -2286,6 +2600,9 @@ def run(tier="quick", seed=0):
         run_rawbuf(col, tier, tmp, NEW_ALLOWANCE[tier != "quick"][0])
         run_writable_chunks(col, tier, tmp, NEW_ALLOWANCE[tier != "quick"][1])
         col.budget_s += min(time.time() - t_new, sum(NEW_ALLOWANCE[tier != "quick"]) + 1)
+        t_new = time.time()
+        run_lazyiv(col, tier, tmp, LAZYIV_ALLOWANCE[tier != "quick"])
+        col.budget_s += min(time.time() - t_new, LAZYIV_ALLOWANCE[tier != "quick"] + 1)
         run_chunks(col, tier, tmp)
     if _UNKNOWN_TYPES:
         col.undecided.append("snapshot could not look into values of type(s) %s" % sorted(_UNKNOWN_TYPES))
@@ -2298,6 +2615,10 @@ def replay(case):
         with TmpDir() as tmp:
             _CASE_TMP[0] = tmp
             eval_rawbuf(col, case)
+    elif case.get("section") == "lazyiv":
+        with TmpDir() as tmp:
+            _CASE_TMP[0] = tmp
+            eval_lazyiv(col, case)
     elif case.get("section") == "chunk":
         with TmpDir() as tmp:
             try:
